@@ -44,7 +44,7 @@ PROPS = {
                   oracles=[orc_c06_bound], twins=twins_c06, twin_rel=rel_c06,
                   variants=[v for v in core.ALL_VARIANTS if v.startswith("o0")], level="other",
                   explanation="Debug/Statistics/Memoize twins of every case are run on the real generated parser and compared; Lean theorems cover the memo-table discipline only (the full memo-soundness statement is false for the unchanged code, finding D7)"),
-    "C07": dict(module="PigeonVerif.Properties.C07", run=mid_check.run_c07, level="other"),
+    "C07": dict(module="PigeonVerif.Properties.C07", run=mid_check.run_c07, differs=mid_check.differs_rt, level="other"),
     "C08": h1prop("PigeonVerif.Properties.C08", P(["val", "pos", "errs", "stores", "trace_ctx", "trace_stores"]),
                   [("lr", 12000, 400000)], twins=twins_c08, twin_rel=rel_c08, level="other",
                   variants=[v for v in core.ALL_VARIANTS if v[5] == "1"],
